@@ -1009,6 +1009,7 @@ class Executor:
                 raise Unsupported("indirect call through " + repr(callee))
         else:
             func_s = self.subst(fr, func)
+        func_s = re.sub(r"(?:::)?<'[a-z_][a-z_0-9]*>", "", func_s)
         func_s = re.sub(r"'[a-z_][a-z_0-9]*\s*,\s*", "", func_s)
         func_s = re.sub(r"&'[a-z_][a-z_0-9]* ", "&", func_s)
         args = None
